@@ -50,7 +50,7 @@ out = ["# Seeded changes (independent sub-agents) and what catches them\n",
        "All were written by sub-agents that saw only the property text and a scratch worktree; every one compiles and keeps the 58 tests + doctests green (confirmed in a scratch worktree by `lib/seed_intake.py`).\n",
        "| seed | change | needs | caught by (quick tier) | first witness | missed by the first version because -> what changed |", "|---|---|---|---|---|---|"]
 n = caught_n = 0
-for d in sorted(glob.glob('/verif/seeded/C*')):
+for d in sorted(glob.glob('/verif/seeded/C??-*')):
     m = json.load(open(d + '/meta.json'))
     det = m.get('detection', {})
     caught = [k for k, v in det.items() if v.get('exit') == 1]
